@@ -361,3 +361,64 @@ def corr_solver(r, ncases, variants=None, case_fn=None):
         stats["oracle_exhausted"] = sum(1 for o in out if "oracle-exhausted" in o)
     return {"evaluations": len(allm), "cases": ncases, "stats": stats, "mismatches": bad,
             "samples": [metas[0], metas[-1]] if metas else []}
+
+
+# =============================================================================================
+# evolvent-object stream (C17): one object, interleaved calls, all caller-visible arrays dumped
+# =============================================================================================
+def gen_eo_script(r, length, n=None):
+    n = n or r.choice([1, 1, 2, 2, 3, 4, 5])
+    m = r.randint(1, min(12, 50 // n))
+    lo, hi = gen_box(r, n)
+    lines = [f"eo.new {n} {m} {fs2h(lo)} {fs2h(hi)}"]
+    nvis = 2
+    boxes = [(0, 1)]
+    cur = (lo, hi)
+    for _ in range(length):
+        u = r.random()
+        if u < 0.4:
+            x = r.choice([0.0, 1.0, 0.5]) if r.random() < 0.15 else r.random()
+            lines.append(f"eo.image {f2h(x)}"); nvis += 1
+        elif u < 0.7:
+            # inverse of a fresh point or of an array returned earlier (aliasing!)
+            if r.random() < 0.5 and nvis > 2:
+                cand = r.randrange(2, nvis)
+                lines.append(f"{r.choice(['eo.inverse', 'eo.preimages'])} {cand}")
+            else:
+                y = [l + r.random() * (h - l) for l, h in zip(*cur)]
+                lines.append("eo.arr " + fs2h(y)); nvis += 1
+                lines.append(f"{r.choice(['eo.inverse', 'eo.preimages'])} {nvis - 1}")
+        elif u < 0.8:
+            lo2, hi2 = gen_box(r, n)
+            lines.append("eo.arr " + fs2h(lo2)); lines.append("eo.arr " + fs2h(hi2)); nvis += 2
+            lines.append(f"eo.setbounds {nvis - 2} {nvis - 1}")
+            cur = (lo2, hi2)
+        else:
+            lines.append("eo.visible")
+    lines.append("eo.visible")
+    return lines
+
+
+def corr_eo(r, tier):
+    scripts = [gen_eo_script(r, r.randint(3, 40 if tier == "quick" else 200)) for _ in range(150 if tier == "quick" else 1500)]
+    # all short sequences over a small alphabet (N = 1 and N = 2)
+    alpha = ["eo.image 3fd0000000000000", "eo.image 3fe8000000000000", "eo.inverse 2", "eo.preimages 2", "eo.visible"]
+    depth = 3 if tier == "quick" else 5
+    for n in (1, 2):
+        for seq in itertools.product(range(len(alpha)), repeat=depth):
+            lo, hi = [-1.0] * n, [2.0] * n
+            sc = [f"eo.new {n} 3 {fs2h(lo)} {fs2h(hi)}", "eo.image 3fe0000000000000"]
+            sc += [alpha[a] for a in seq] + ["eo.visible"]
+            scripts.append(sc)
+    allm, spans = [], []
+    for sc in scripts:
+        spans.append((len(allm), len(sc))); allm += sc
+    mo = run_model(allm)
+    bad, total = [], 0
+    for (st, ln), sc in zip(spans, scripts):
+        io, _ = implmod.run_impl(sc)
+        total += ln
+        for i in range(ln):
+            if mo[st + i] != io[i]:
+                bad.append(Mismatch("evobj", sc[:i + 1], i, sc[i], mo[st + i], io[i])); break
+    return {"evaluations": total, "scripts": len(scripts), "mismatches": bad, "samples": [scripts[0][:10], scripts[-1]]}
